@@ -258,6 +258,8 @@ def model_requests(rec):
         obs = inv["obs"]
         if not obs["steps"] or not obs["roots"] or obs["unsupported"]:
             break
+        if inv["rc"] in ("timeout", "harness-error") or (isinstance(inv["rc"], str) and inv["rc"].startswith("exit:")):
+            break   # the invocation was given up by the harness (deadline): its log is incomplete, no verdict
         paths |= set(obs["state"])
         fl = inv.get("flags", {})
         req = {"op": "invoke", "cfg": {"force": inv["force"], "cleanBuild": not rec["develop"],
